@@ -39,6 +39,16 @@ theorem errorReply_props (s : St) (st : Nat) (wf : FlagsWF s) :
   · simp only [h]
     refine ⟨fun _ => rfl, Or.inl rfl, by simp⟩
 
+theorem refuseWith_flagsWF (s : St) (x : Option Nat) (wf : FlagsWF s) : FlagsWF (refuseWith s x) := by
+  cases x with
+  | some st => exact (errorReply_props s st wf).1
+  | none => exact wf
+
+theorem refuseWith_noReparse (s : St) (x : Option Nat) (j : NoReparse s) : NoReparse (refuseWith s x) := by
+  cases x with
+  | some st => exact errorReply_props s st j.1
+  | none => exact ⟨j.1, j.2.1, by simp [refuseWith]⟩
+
 theorem noReparse_of_flags (s s' : St) (j : NoReparse s) (hd : s'.discard = s.discard)
     (he : s'.stopErr = s.stopErr) (hk : s'.keepalive = s.keepalive) (hs : s'.state ≠ .init) : NoReparse s' := by
   obtain ⟨wf, t, _⟩ := j
@@ -102,6 +112,7 @@ theorem step_noReparse (lvl : Int) (app : App) (s s' : St) (h : idleStep lvl app
     split at h
     · cases h
     · cases h; exact noReparse_of_flags s _ j0 rfl rfl rfl (by simp)
+    · cases h; exact refuseWith_noReparse s _ j0
     · cases h; exact noReparse_of_flags s _ j0 rfl rfl rfl (by simp)
   · cases h; exact noReparse_of_flags s _ j0 rfl rfl rfl (by simp)
   · -- fullReqReceived
@@ -166,6 +177,12 @@ theorem errorReply_past (s : St) (st : Nat) :
   · exact ⟨⟨by simp, by simp, by simp⟩, countFirst_cons _ _ rfl⟩
   · exact ⟨⟨by simp, by simp, by simp⟩, countFirst_cons _ _ rfl⟩
 
+theorem refuseWith_past (s : St) (x : Option Nat) :
+    PastFirst (refuseWith s x) ∧ countFirst (refuseWith s x).out = countFirst s.out := by
+  cases x with
+  | some st => exact errorReply_past s st
+  | none => exact ⟨⟨by simp [refuseWith], by simp [refuseWith], by simp [refuseWith]⟩, countFirst_cons _ _ rfl⟩
+
 theorem bodyStep_past (lvl : Int) (s s' : St) (h : bodyStep lvl s = some s') (hs : s.state = .bodyReceiving) :
     PastFirst s' ∧ countFirst s'.out = countFirst s.out := by
   unfold bodyStep at h
@@ -203,6 +220,7 @@ theorem step_past (lvl : Int) (app : App) (s s' : St) (h : idleStep lvl app s = 
   · split at h
     · cases h
     · cases h; exact ⟨⟨by simp, by simp, by simp⟩, rfl⟩
+    · cases h; exact refuseWith_past s _
     · cases h; exact ⟨⟨by simp, by simp, by simp⟩, rfl⟩
   · cases h; exact ⟨⟨by simp, by simp, by simp⟩, rfl⟩
   · split at h
@@ -281,6 +299,7 @@ theorem step_flagsWF (lvl : Int) (app : App) (s s' : St) (h : idleStep lvl app s
   · split at h
     · cases h
     · cases h; exact flagsWF_of s _ wf (Or.inl rfl) rfl
+    · cases h; exact refuseWith_flagsWF s _ wf
     · cases h; exact flagsWF_of s _ wf (Or.inl rfl) rfl
   · split at h <;> cases h
     · exact (errorReply_props s _ wf).1
@@ -309,6 +328,7 @@ theorem step_flagsWF (lvl : Int) (app : App) (s s' : St) (h : idleStep lvl app s
   · split at h
     · cases h
     · cases h; exact flagsWF_of s _ wf (Or.inl rfl) rfl
+    · cases h; exact refuseWith_flagsWF s _ wf
     · cases h; exact flagsWF_of s _ wf (Or.inl rfl) rfl
   · cases h; exact flagsWF_of s _ wf (Or.inl rfl) rfl
   · split at h
